@@ -872,6 +872,51 @@ def _gen_comm(method):
     return g
 
 
+def _gen_layer_broadcast(X):
+    """KFACInverseLayer.broadcast_{a,g}_inv on several ranks: the root computed the inverse, receivers either hold an
+    older inverse or size their buffer from their own copy of the factor."""
+    key = f'kfac.layers.inverse:KFACInverseLayer.broadcast_{X}_inv'
+
+    @gen(key)
+    def g(rng, model):
+        world = rng.choice([1, 2, 2, 3])
+        seed = rng.randrange(1 << 30)
+
+        def build(rank, world):
+            import random
+            import torch
+            import torch.distributed as dist
+            from kfac.distributed import TorchDistributedCommunicator
+            from kfac.layers.inverse import KFACInverseLayer
+            from kfac.layers.modules import LinearModuleHelper
+            r = random.Random(seed)
+            lists = _subgroups(r, world)
+            groups = [dist.new_group(l) for l in lists] + [None]
+            lists = lists + [list(range(world))]
+            gi = r.randrange(len(groups))
+            src = r.choice(lists[gi])
+            torch.manual_seed(r.randrange(1 << 30))
+            lin = torch.nn.Linear(r.choice([1, 2, 3, 5]), r.choice([1, 2, 4]), bias=r.random() < 0.5)
+            aware = r.random() < 0.6
+            inv_dtype = r.choice([torch.float32, torch.float64])
+            receivers_hold_old = r.random() < 0.5
+            layer = KFACInverseLayer(LinearModuleHelper(lin), tdc=TorchDistributedCommunicator(), symmetry_aware=aware, inv_dtype=inv_dtype)
+            n = layer.module.a_factor_shape[0] if X == 'a' else layer.module.g_factor_shape[0]
+            m = torch.randn(n, n)
+            setattr(layer, f'_{X}_factor', m @ m.t() / n + torch.eye(n))
+            if rank not in lists[gi]:
+                return None
+            if rank == src or receivers_hold_old:
+                getattr(layer, f'compute_{X}_inv')(damping=0.01 * (1 + (rank != src)))
+            fn = getattr(KFACInverseLayer, f'broadcast_{X}_inv')
+            return Case(fn, {'self': layer, 'src': src, 'group': groups[gi]}, [layer], {'src': src, 'group': groups[gi]},
+                        note=f'group {lists[gi]}, src {src}, n={n}, symmetry_aware={aware}, receivers hold an old inverse: {receivers_hold_old}')
+        return MultiRankCase(world, build, note=f'world {world}, seed {seed}')
+    return g
+
+
+_gen_layer_broadcast('a')
+_gen_layer_broadcast('g')
 _gen_comm('allreduce')
 _gen_comm('broadcast')
 
